@@ -33,6 +33,35 @@ example : homog [.int .int 2, .flt .f64 (3/2), .int .i8 (-1), .int .u8 3] = true
 /-- a mixed array is *not* homogeneous (the model then answers `unmodelled`; only `sort_perm` is claimed) -/
 example : homog [.int .int 1, .str [97], .nil] = false := by decide +kernel
 
+/-- Why the `arrf` stream may compare sort results in canonical form (key sequence + multiset): any two
+sorted permutations of a homogeneous array — Go's, whatever its unstable sort does with ties, and the
+model's — have the same sequence of canonical sort keys, and the same elements up to order. -/
+theorem sort_canonical (xs ys zs : List GoVal) (h : homog xs = true) (hw : ∀ x ∈ xs, IntWF x)
+    (py : ys.Perm xs) (pz : zs.Perm xs)
+    (sy : ys.Pairwise (fun a b => lessB b a = false)) (sz : zs.Pairwise (fun a b => lessB b a = false)) :
+    ys.map canonKey = zs.map canonKey ∧ (ys.map GoVal.enc).Perm (zs.map GoVal.enc) := by
+  refine ⟨?_, (py.trans pz.symm).map _⟩
+  obtain ⟨κ, key, kle, shw, _, _, anti, spec, hshow⟩ := homog_keyOrder xs h hw
+  have sorted : ∀ ws : List GoVal, ws.Perm xs → ws.Pairwise (fun a b => lessB b a = false) →
+      (ws.map key).Pairwise kle := by
+    intro ws pw sw
+    rw [List.pairwise_map]
+    refine sw.imp_of_mem ?_
+    intro a b ha hb hab
+    have := spec b (pw.subset hb) a (pw.subset ha)
+    apply Classical.byContradiction
+    intro hk
+    rw [this.mpr hk] at hab
+    exact absurd hab (by simp)
+  have hkeys : ys.map key = zs.map key :=
+    List.Perm.eq_of_pairwise (le := kle) (fun a b _ _ => anti a b) (sorted ys py sy) (sorted zs pz sz)
+      ((py.trans pz.symm).map key)
+  have canon : ∀ ws : List GoVal, ws.Perm xs → ws.map canonKey = (ws.map key).map shw := by
+    intro ws pw
+    rw [List.map_map]
+    exact List.map_congr_left (fun a ha => hshow a (pw.subset ha))
+  rw [canon ys py, canon zs pz, hkeys]
+
 /-- `sort: key` returns a permutation of its input. -/
 theorem sort_key_perm (key : Bytes) (xs : List GoVal) : (sortByF key xs).Perm xs :=
   List.mergeSort_perm xs (sortByLe key)
